@@ -79,20 +79,22 @@ package ir
 
 // Leaving a block truncates to the height of the enclosing scope.
 //@ func (*CodeBuilder).PopContext
-//@   prop C10
+//@   prop C10 C01
 //@   arith int
 //@   norte
 //@   nocover
 //@   requires c != nil
 //@   modifies everything()
 //@   exits any
-//@   loop 1: invariant true
+//@   loop 1: invariant ghost(cleared) == old(ghost(cleared)) + 1
 //@   assert_before_call emitTruncate: len(old(c.context)) >= 2 ==> $m.height == old(c.context[len(c.context)-2].height)
+//@   assert_before_call emitClearReg: len(old(c.context)) >= 1 ==> $m == old(c.context[len(c.context)-1])
+//@   ensures ghost(cleared) == old(ghost(cleared)) + 1
 
 // A jump (goto, break) truncates to the height of the scope that owns the
 // label - not its parent's - so that variables of that scope stay open.
 //@ func (*CodeBuilder).EmitJump
-//@   prop C10
+//@   prop C10 C01
 //@   arith int
 //@   norte
 //@   nocover
@@ -100,7 +102,25 @@ package ir
 //@   modifies everything()
 //@   exits any
 //@   loop 1: invariant true
+//@   loop 1: invariant ghost(cleared) == old(ghost(cleared)) + len(old(c.context)) - len(lc)
 //@   assert_before_call emitTruncate: $m.height == top.height
+//@   assert_before_call emitClearReg: $m == top
+//@   assert_before_call Emit: ghost(cleared) == old(ghost(cleared)) + len(old(c.context)) - len(lc) - 1
+
+// C01 (fresh variables per execution of a local declaration, manual 3.5): a
+// captured local lives in a cell; leaving its scope - by falling off the end
+// (PopContext) or by a jump (goto, break: EmitJump, for every scope between the
+// jump and the scope owning the label) - emits ClearReg for it, so that the next
+// execution of the declaration gets a new cell while closures keep the old one.
+// ghost(cleared) counts the scopes for which emitClearReg was called; what
+// emitClearReg emits for each register of the scope iterates over a Go map and
+// is not decided.
+//@ func (*CodeBuilder).emitClearReg
+//@   prop C01
+//@   trusted
+//@   modifies everything()
+//@   exits any
+//@   ghost cleared += 1
 
 // Tail calls are disabled exactly when the current scope has pending closes.
 //@ func (*CodeBuilder).HasPendingCloseActions
